@@ -8,10 +8,19 @@ from gffutils import merge_criteria as mc
 from gv.model import dbutil
 
 ID = "C19"
-RULE = ("part 'clobber': (old database in {GFF3, GTF, GFF3 after an update, GTF without inference}, opened in this process before or not) x (new input in 3) x force x database path form; part 'reads': "
-        "every sequence of length <= 3 (quick) / <= 4 (thorough) over 19 read-style calls on 4 file databases, with a sqlite statement "
-        "trace on the connection and a canonical + byte comparison of the file after closing. Non-trivial = every execution (each has an "
-        "existing database that must survive)")
+RULE = (
+    "Part 'clobber' (shards = old file database in {GFF3, GTF, GFF3 after an update, GTF without inference, GFF3 with every feature "
+    "deleted again} x new input in 3): force x input form {path, from_string, list of Features} x old database opened in this process "
+    "before or not x call variant {plain, rejected merge_strategy/force_merge_fields combination, pragmas=None, input file older than "
+    "the database}. Without force create_db must raise and the file's canonical content must be unchanged (also for the failing call "
+    "variants); a failing variant must raise whatever force says; with force the import must not raise, the returned object and the "
+    "reopened file show the new directives/dialect/features, the file equals a fresh import canonically and no old feature survives. "
+    "Part 'reads' (shards = 4 old databases (not the emptied one) x first call): every sequence of length 1..3 (quick) / 1..4 "
+    "(thorough) over 19 read-style calls x a flag 'an earlier write on this object failed half-way', on a copy of the file, with a "
+    "sqlite statement trace on the connection (only SELECT/PRAGMA allowed; no call may raise other than FeatureNotFoundError), then a "
+    "canonical comparison of all tables of the closed file and of directives, dialect and counters of a reopened FeatureDB; byte "
+    "identity is recorded as an outcome. Non-trivial = every execution (each has an existing database that must survive)."
+)
 ASSUMPTIONS = [
     "the statement trace sees every statement the connection executes (sqlite3.Connection.set_trace_callback)",
     "byte identity of the file is reported as an outcome; the verdict is on canonical content (all tables, counters, dialect, directives)",
